@@ -1,14 +1,48 @@
 """Witness search / replay against the REAL code (through /verif/replay, a cargo project that
 depends on /repo built with --cfg indicatif_verif).  Produces inputs only; never decides."""
+import hashlib
 import json
 import os
 import shlex
+import shutil
 import subprocess
+import tempfile
 
 ROOT = os.path.dirname(os.path.dirname(os.path.abspath(__file__)))
-TARGET = os.path.join(ROOT, ".build", "replay-target")
+REPO = os.environ.get("VERIF_REPO", "/repo")
+# development only: with VERIF_REPO pointing at another checkout the driver crates are copied (path dependency
+# rewritten) and built into a target directory of their own, so that several trees can be checked side by side
+_SFX = "" if REPO == "/repo" else "-" + hashlib.sha256(REPO.encode()).hexdigest()[:8]
+TARGET = os.path.join(ROOT, ".build", "replay-target" + _SFX)
 BIN = os.path.join(TARGET, "release", "replay")
 _built = {"ok": None, "log": ""}
+
+
+def _crate_dir(name):
+    src = os.path.join(ROOT, name)
+    if REPO == "/repo":
+        return src
+    dst = os.path.join(ROOT, ".build", "reloc" + _SFX, name)
+    tmp = tempfile.mkdtemp(dir=os.path.join(ROOT, ".build"))
+    try:
+        work = os.path.join(tmp, name)
+        shutil.copytree(src, work, ignore=shutil.ignore_patterns("target"))
+        ct = os.path.join(work, "Cargo.toml")
+        t = open(ct).read().replace('path = "/repo"', 'path = "%s"' % REPO)
+        open(ct, "w").write(t)
+        os.makedirs(os.path.dirname(dst), exist_ok=True)
+        same = False
+        if os.path.isdir(dst):
+            same = subprocess.run(["diff", "-rq", work, dst], capture_output=True).returncode == 0
+        if not same:
+            shutil.rmtree(dst, ignore_errors=True)
+            try:
+                os.rename(work, dst)
+            except OSError:
+                pass    # another check of the same tree got there first
+    finally:
+        shutil.rmtree(tmp, ignore_errors=True)
+    return dst
 
 
 def build():
@@ -16,13 +50,13 @@ def build():
         return _built["ok"]
     env = dict(os.environ, CARGO_NET_OFFLINE="true", RUSTFLAGS="--cfg indicatif_verif")
     p = subprocess.run(["cargo", "build", "--offline", "--release", "--target-dir", TARGET],
-                       cwd=os.path.join(ROOT, "replay"), env=env, capture_output=True, text=True)
+                       cwd=_crate_dir("replay"), env=env, capture_output=True, text=True)
     _built["ok"] = p.returncode == 0
     _built["log"] = (p.stdout + p.stderr)[-3000:]
     return _built["ok"]
 
 
-ATARGET = os.path.join(ROOT, ".build", "replay-async-target")
+ATARGET = os.path.join(ROOT, ".build", "replay-async-target" + _SFX)
 ABIN = os.path.join(ATARGET, "release", "replay-async")
 _abuilt = {"ok": None, "log": ""}
 
@@ -34,7 +68,7 @@ def build_async():
         return _abuilt["ok"]
     env = dict(os.environ, CARGO_NET_OFFLINE="true")
     p = subprocess.run(["cargo", "build", "--offline", "--release", "--target-dir", ATARGET],
-                       cwd=os.path.join(ROOT, "replay-async"), env=env, capture_output=True, text=True)
+                       cwd=_crate_dir("replay-async"), env=env, capture_output=True, text=True)
     _abuilt["ok"] = p.returncode == 0
     _abuilt["log"] = (p.stdout + p.stderr)[-3000:]
     return _abuilt["ok"]
